@@ -8,6 +8,12 @@ Line protocol for C06 (see harness/c06.py). The driver is stateful:
                                                                                   -> ok   (fresh MDA object)
   run <fuel> <consts> <start>   -> <converged|maxIter|nan|capped> it=<n> hist=<squared normed residuals> raw=<squared residual norms> out=<data>
 `run` executes the current MDA object once more (scaling data and last outputs are kept).
+  io <nvars> <vars: comps i,i|i,..> <reads: v,v|v,..> <writes: v,v|v,..>
+        -> sc=<strong coupling variables> res=<their components> groups=<positions>   (remembered: `auto` in cfg / grp)
+  inner <chain k=v,..> <given k=v,..|[]>   -> tolerance=<r|none> max_mda_iter=<r|none> warm_start=<r|none>
+  grp <discs i,i|i> <self 0|1> <ismda 0|1> <j|g|n> <res|auto> <groups|auto> <scal> <omega> <accel> <chain k=v,..> <given k=v,..|[]>
+        -> ok mda=<0|1> tol=<r> maxit=<n> warm=<0|1>       (appends a component to the chain; `sys` clears them)
+  chain <fuel> <consts> <start>  -> out=<data> then, per inner MDA, ` ; <outcome> it=<n> hist=<..> raw=<..>`
 -/
 
 structure D where
@@ -16,6 +22,9 @@ structure D where
   st : MState := {}
   /-- a capped replay leaves no meaningful MDA state: later runs of the same object are not replayed -/
   poisoned : Bool := false
+  /-- resolved components / positions computed by the last `io` line -/
+  auto : List Nat × List (List Nat) := ([], [])
+  chainGroups : List Group := []
 
 def parseGroups (s : String) : Option (List (List Nat)) :=
   if s = "[]" then some [] else (s.splitOn "|").mapM parseNatList?
@@ -34,6 +43,18 @@ def parseAccel : String → Option Accel
 def parseAlgo : String → Option Algo
   | "j" => some .jacobi | "g" => some .gaussSeidel | "n" => some .newton | _ => none
 
+def parseSettings (s : String) : Option Settings :=
+  if s = "[]" then some [] else
+  (s.splitOn ",").mapM (fun kv => match kv.splitOn "=" with
+    | [k, v] => (parseRat? v).map (fun r => (k, r))
+    | _ => none)
+
+def showGroups (g : List (List Nat)) : String :=
+  if g.isEmpty then "[]" else "|".intercalate (g.map showNatList)
+
+def showOpt : Option Rat → String
+  | some r => showRat r | none => "none"
+
 def showOutcome : Outcome → String
   | .converged => "converged" | .maxIter => "maxIter" | .nan => "nan" | .capped => "capped"
 
@@ -42,10 +63,53 @@ def step' (d : D) (line : String) : D × String :=
   | ["sys", rows, discs] =>
     match parseRows rows, parseGroups discs with
     | some rows, some discs =>
-      ({ d with sys := ⟨rows.map (fun c => ⟨0, c⟩), discs⟩, cfg := none, st := {} }, "ok")
+      ({ d with sys := ⟨rows.map (fun c => ⟨0, c⟩), discs⟩, cfg := none, st := {}, chainGroups := [] }, "ok")
     | _, _ => (d, "bad-sys")
+  | ["io", nvars, vars, reads, writes] =>
+    match nvars.toNat?, parseGroups vars, parseGroups reads, parseGroups writes with
+    | some nvars, some vars, some reads, some writes =>
+      let sc := strongCouplingVars nvars reads writes
+      let res := componentsOf vars sc
+      let pos := positionsOf vars 0 sc
+      ({ d with auto := (res, pos) }, s!"sc={showNatList sc} res={showNatList res} groups={showGroups pos}")
+    | _, _, _, _ => (d, "bad-io")
+  | ["inner", chain, given] =>
+    match parseSettings chain, parseSettings given with
+    | some chain, some given =>
+      let r := innerSettings chain given
+      (d, s!"tolerance={showOpt (r.get? "tolerance")} max_mda_iter={showOpt (r.get? "max_mda_iter")} warm_start={showOpt (r.get? "warm_start")}")
+    | _, _ => (d, "bad-inner")
+  | ["grp", discs, self, ismda, algo, res, groups, scal, omega, acc, chain, given] =>
+    let res? := if res = "auto" then some d.auto.1 else parseNatList? res
+    let groups? := if groups = "auto" then some d.auto.2 else parseGroups groups
+    match parseGroups discs, parseAlgo algo, res?, groups?, parseScaling scal, parseRat? omega, parseAccel acc,
+          parseSettings chain, parseSettings given with
+    | some discs, some algo, some res, some groups, some scal, some omega, some acc, some chain, some given =>
+      let r := innerSettings chain given
+      match r.get? "tolerance", r.get? "max_mda_iter", r.get? "warm_start" with
+      | some tol, some maxit, some warm =>
+        let c : Cfg := { algo := algo, res := res, groups := groups, warmIdx := res, tol := tol,
+                         maxIter := maxit.floor.toNat, scaling := scal, omega := omega, accel := acc,
+                         warmStart := warm != 0 }
+        let g : Group := { discs := discs, selfCoupled := self == "1", isMda := ismda == "1", cfg := c }
+        ({ d with chainGroups := d.chainGroups ++ [g] },
+          s!"ok mda={if requiresMda g then 1 else 0} tol={showRat tol} maxit={maxit.floor.toNat} warm={if warm != 0 then 1 else 0}")
+      | _, _, _ => (d, "bad-grp-settings")
+    | _, _, _, _, _, _, _, _, _ => (d, "bad-grp")
+  | ["chain", fuel, consts, start] =>
+    match fuel.toNat?, parseRatList? consts, parseRatList? start with
+    | some fuel, some consts, some start =>
+      let sys : Sys := ⟨List.zipWith (fun (r : Row) k => { r with const := k }) d.sys.rows consts, d.sys.discs⟩
+      let (out, runs) := chainExecute sys d.chainGroups fuel start
+      let segs := runs.map (fun r =>
+        s!" ; {showOutcome r.outcome} it={r.hist.length} hist={showRatList r.hist} raw={showRatList r.raw}")
+      (d, s!"out={showRatList out}{String.join segs}")
+    | _, _, _ => (d, "bad-chain")
   | ["cfg", algo, res, groups, widx, tol, maxit, scal, omega, acc, warm] =>
-    match parseAlgo algo, parseNatList? res, parseGroups groups, parseNatList? widx, parseRat? tol,
+    let res? := if res = "auto" then some d.auto.1 else parseNatList? res
+    let groups? := if groups = "auto" then some d.auto.2 else parseGroups groups
+    let widx? := if widx = "auto" then some d.auto.1 else parseNatList? widx
+    match parseAlgo algo, res?, groups?, widx?, parseRat? tol,
           maxit.toNat?, parseScaling scal, parseRat? omega, parseAccel acc with
     | some algo, some res, some groups, some widx, some tol, some maxit, some scal, some omega, some acc =>
       let c : Cfg := { algo := algo, res := res, groups := groups, warmIdx := widx, tol := tol, maxIter := maxit,
